@@ -447,6 +447,37 @@ def run_simplify(case, ctx):
         raise pending
 
 
+# ------------------------------------------------------------------ larger shapes (segment queues etc.)
+def enum_large(tier, seed):
+    sizes = [65, 130] if tier == "quick" else [64, 65, 129, 130, 260, 520]
+    for sa, sb in (("comb", "balanced"), ("balanced", "star"), ("star", "comb"), ("multiroot", "balanced")):
+        for k in sizes:
+            for mode in ("all", "half", "few"):
+                for kopt in (0, 1, 3 * 1, 3 * 2):  # defaults, keep_unary, keep_input_roots-ish bit patterns
+                    yield dict(sa=sa, sb=sb, k=k, mode=mode, kopt=kopt)
+
+
+def run_large(case, ctx):
+    """Trees with 65-520 samples on two intervals: more lineages through one node than the simplifier's
+    initial queue sizes; same positional oracle as C04.simplify."""
+    import tskit
+
+    from ._shapes import two_tree_spec
+
+    k = case["k"]
+    spec = two_tree_spec(case["sa"], case["sb"], k, internal_samples=(k % 2 == 0))
+    tables = gen.build_tables(spec, tskit)
+    if case["mode"] == "all":
+        samples = None
+    elif case["mode"] == "half":
+        samples = list(range(0, k, 2))
+    else:
+        samples = [0, k // 3, k - 1]
+    ctx.nt(True)
+    ctx.label("shape:" + case["sa"] + "+" + case["sb"])
+    check_simplify(ctx, tskit, spec, tables, samples, decode_opts(case["kopt"]), explicit=True, via="ts")
+
+
 # ------------------------------------------------------------------ documented refusals
 @st.composite
 def refusal_case(draw):
@@ -626,6 +657,9 @@ SUBCHECKS = [
                      "opt:filter_nodes=F": 0.2, "opt:filter_sites=F": 0.2, "opt:filter_individuals=F": 0.2,
                      "opt:filter_populations=F": 0.2, "opt:update_sample_flags=F": 0.2,
                      "opt:reduce_to_site_topology=T": 0.2}),
+    SubCheck("C04.large_shapes", run_large, enumerate=enum_large, quick=1, thorough=1, classify=classify,
+             rule="two-interval tree sequences (comb/balanced/star/multi-root) with 65-130 (thorough: up to 520) samples x "
+                  "sample lists all/half/three x four option sets"),
     SubCheck("C04.refusals", run_refusal, strategy=refusal_case, quick=600, thorough=12000,
              rule="every case: duplicate / out-of-range sample ids, both keep_unary options, a migration row, or"
              " an edge with metadata must raise LibraryError",
